@@ -164,6 +164,12 @@ def aborted_client_and_page_cache(S, rnd, windex, cnt, res):
         sizes = [n // pieces] * (pieces - 1) + [n - (n // pieces) * (pieces - 1)]
         expected = b"".join(pat(pid + i, sz) for i, sz in enumerate(sizes))
         ops = (["m1"] if not is_async else []) + ["K" + key.hex(), "T" + (key + b"-t").hex()] + ["w%d.%d" % (sz, pid + i) for i, sz in enumerate(sizes)]
+        if variant == 1 and not is_async:
+            # the page ends with a cached frame (copy_filter + store_frame, the documented pattern) rendered after the client has gone
+            n_frame = rnd.choice([500, 20000])
+            ops += ["C%s.%s" % ((key + b"-frame").hex(), (b"%d" % n_frame).hex()), "w10.3"]
+            expected += pat(7, n_frame) + pat(3, 10)
+            cnt("aborted_client_page_rounds_with_a_frame")
         q = b"s=" + ",".join(ops).encode()
         app = b"/awriter" if is_async else b"/writer"
         tok1 = b"AB%d-%da" % (windex, variant)
